@@ -269,10 +269,48 @@ def op_qrotate(st, o):
         st.stats.probe("non_commuting_pair")
     if st.extra.pop("just_cleared", None) == o["on"]:
         st.stats.probe("rotate_after_clear")
+    if st.extra.pop("just_refused", None) == o["on"]:
+        st.stats.probe("rotate_after_refused")
     rm.Q = R @ rm.Q  # later rotations are applied after earlier ones
     rm.nrot += 1
     _check_rotated(st, o, rm, h.obj.field)
     return o["method"]
+
+
+@op("Q.rotate_bad")
+def op_qrotate_bad(st, o):
+    """A rotation request the rotator refuses (impossible target resolution, unknown
+    method). It did not take place: the current field stays what it was and the next
+    rotation composes with the rotations performed so far, not with the refused one."""
+    h = st.h[o["on"]]
+    if h.kind != "Q":
+        return "skipped"
+    rm = h.box.v
+    if getattr(rm, "unmodelled", False):
+        return "skipped"
+    f0 = h.obj.field
+    before_arr = np.array(f0.array, copy=True)
+    before_mesh = adopt_mesh(f0.mesh)
+    if o["why"] == "method":
+        res = sut(h.obj.rotate, "from_nothing", [0.0, 0.0, 0.0, 1.0])
+    else:
+        a, kw = lib_args(o["method"], o["args"])
+        res = sut(h.obj.rotate, o["method"], *a, n=tuple(o["n"]), **kw)
+    st.stats.fault("rejected_args")
+    st.stats.oracle("F")
+    if not res.raised:
+        # not a clause of C18 (which requests are refused is not stated): no model from here on
+        rm.unmodelled = True
+        return "accepted-unmodelled"
+    f1 = h.obj.field
+    from .geom import cmp_mesh
+
+    bad = cmp_mesh(f1.mesh, before_mesh, st.atol(before_mesh), "field after the refused rotation", subs=False, bc=False)
+    if bad or not arrays_equal(np.asarray(f1.array), before_arr):
+        raise Violation("rot.refused_changed_field", f"rotate(..., {o['why']}) raised {type(res.e).__name__} but the rotator's field changed: " + "; ".join(bad[:3]), preds=[o["why"]], kind="F")
+    st.stats.probe("refused_rotation")
+    st.extra["just_refused"] = o["on"]
+    return "refused"
 
 
 @op("Q.keep")
